@@ -29,6 +29,14 @@ fn build_tree(root: &Path, tree: &str) {
                 let content = if parts[2] == "-" { vec![] } else if let Some(r) = parts[2].strip_prefix('P') { file_of_spec(&format!("P{}", r.replace('_', ":"))) } else { unhex(parts[2]) };
                 std::fs::write(&p, content).unwrap();
             }
+            "l" => {
+                // a symbolic link to a file next to it (the model treats it as a file with the target's content)
+                if let Some(par) = p.parent() {
+                    std::fs::create_dir_all(par).unwrap();
+                }
+                let target = String::from_utf8(unhex(parts[2])).unwrap();
+                std::os::unix::fs::symlink(target, &p).unwrap();
+            }
             _ => panic!("bad tree entry"),
         }
     }
@@ -41,7 +49,9 @@ fn snapshot(root: &Path) -> String {
         for e in ents {
             let p = e.path();
             let rel = p.strip_prefix(base).unwrap().to_str().unwrap().to_string();
-            if p.is_dir() {
+            if std::fs::symlink_metadata(&p).map(|m| m.file_type().is_symlink()).unwrap_or(false) {
+                out.push(format!("{}=link", hex(rel.as_bytes())));
+            } else if p.is_dir() {
                 out.push(format!("{}/", hex(rel.as_bytes())));
                 walk(base, &p, out);
             } else {
@@ -387,6 +397,7 @@ pub fn run_srv(toks: &[&str], dir: &Path) -> String {
     let probe = Peer::new();
     let mut out: Vec<String> = vec![];
     let probe_dg = Packet::Ack(7).serialize().unwrap();
+    let mut held: Vec<Option<(Vec<u8>, SocketAddr)>> = (0..10).map(|_| None).collect();
     for step in toks[4].split(';') {
         if step == "-" {
             continue;
@@ -398,6 +409,15 @@ pub fn run_srv(toks: &[&str], dir: &Path) -> String {
         }
         if kind == "x" {
             continue; // model-side marker: the abandoned worker of this client has given up by now
+        }
+        if kind == "c" {
+            // the client whose download was left waiting after its first reply takes it up now
+            let c: usize = step[1..2].parse().unwrap();
+            match (&peers[c], held[c].take()) {
+                (Some(peer), Some(r)) => out.push(download(peer, &r, listener, single, rep)),
+                _ => out.push("dl=-".into()),
+            }
+            continue;
         }
         let c: usize = step[1..2].parse().unwrap();
         if peers[c].is_none() {
@@ -417,6 +437,9 @@ pub fn run_srv(toks: &[&str], dir: &Path) -> String {
         out.push(format!("reply={}", show_reply(&reply, listener, &root)));
         if kind == "q" {
             let cont = if fields.len() > 1 { fields[1] } else { "-" };
+            if cont == "H" {
+                held[c] = reply.clone();
+            }
             if let Some(r) = &reply {
                 if cont == "D" {
                     out.push(download(peer, r, listener, single, rep));
@@ -538,7 +561,7 @@ fn pick_name(rng: &mut Rng, write: bool) -> Vec<u8> {
     match rng.below(12) {
         0 | 1 | 2 => {
             let base: &[&str] = if write {
-                &["new.bin", "sub/new.bin", "old.bin", "a.txt", "tiny", "sub/n2", "up.dat"]
+                &["new.bin", "sub/new.bin", "old.bin", "a.txt", "tiny", "sub/n2", "up.dat", "empty"]
             } else {
                 &["a.txt", "sub/b.bin", "empty", "big", "s.txt", "probe.txt", "a.txt"]
             };
@@ -796,6 +819,73 @@ pub fn gen_srv(rng: &mut Rng, count: u64, tier: &str) -> Vec<String> {
         out.push(format!("srv {flags} 0 {tree} q0:{u}:F;{probe}"));
         out.push(format!("srv {flags} 0 {tree} q0:{}:F;q1:{u}:UP600_1;{probe}", hex(&req(2, b"sub/part.bin", &[("blksize".to_string(), "1024".to_string())]))));
     }
+    // the existing file of length zero is a file: read as one empty block, not overwritten without --overwrite
+    for flags in ["-", "s", "o", "r"] {
+        out.push(format!("srv {flags} 0 {tree} q0:{}:UP300_1;q1:{}:D;{probe}", hex(&req(2, b"empty", &[])), hex(&req(1, b"empty", &[]))));
+        out.push(format!("srv {flags} 0 {tree} q0:{}:D;q1:{}:UP0_0;{probe}", hex(&req(1, b"empty", &[("tsize".to_string(), "0".to_string())])), hex(&req(2, b"sub/../empty", &[]))));
+    }
+    // single-port mode: a transfer with a small block size does not shrink what the listener can take afterwards
+    for (flags, w) in [("sr", "new.bin"), ("s", "a.txt"), ("so", "a.txt")] {
+        let small = hex(&req(1, b"a.txt", &[("blksize".to_string(), "8".to_string())]));
+        let smallw = hex(&req(2, b"small.bin", &[("blksize".to_string(), "9".to_string())]));
+        out.push(format!("srv {flags} 0 {tree} q0:{small}:D;q1:{}:UP200_1;q2:{}:D;{probe}", hex(&req(2, w.as_bytes(), &[])), hex(&req(1, b"sub/nope.bin", &[]))));
+        out.push(format!("srv {flags} 0 {tree} q0:{smallw}:UP100_2;q1:{}:UP200_1;q2:{}:D;{probe}", hex(&req(2, w.as_bytes(), &[])), hex(&req(1, b"nosuchfile-with-a-long-name.bin", &[]))));
+    }
+    // long names that are not ASCII (the refusal quotes the name): every alignment of the multi-byte characters
+    for flags in ["-", "s", "r"] {
+        for ch in ["\u{e9}", "\u{20ac}", "\u{1d11e}"] {
+            let mut steps = vec![];
+            for pad in 0..4usize {
+                let mut name = "a".repeat(pad);
+                while name.len() + ch.len() <= 470 + pad * 9 {
+                    name.push_str(ch);
+                }
+                steps.push(format!("q{}:{}:D", pad, hex(&req(1, name.as_bytes(), &[]))));
+                steps.push(format!("q{}:{}:D", pad + 4, hex(&req(1, format!("../{name}").as_bytes(), &[]))));
+            }
+            steps.push(probe.clone());
+            out.push(format!("srv {flags} 0 {tree} {}", steps.join(";")));
+        }
+    }
+    // an upload into an empty receive directory that its client aborts: the directory itself stays
+    {
+        let bare: String = tree.split(',').filter(|e| { let p: Vec<&str> = e.split(':').collect(); !String::from_utf8(unhex(p[1])).unwrap().starts_with("rcv/") }).collect::<Vec<_>>().join(",");
+        for flags in ["d", "ds", "dk"] {
+            out.push(format!("srv {flags} 0 {bare} q0:{}:E;{probe}", hex(&req(2, b"fw.bin", &[]))));
+            out.push(format!("srv {flags} 0 {bare} q0:{}:F;q1:{}:UP100_3;{probe}", hex(&req(2, b"fw.bin", &[("blksize".to_string(), "1024".to_string())])), hex(&req(2, b"second.bin", &[]))));
+        }
+    }
+    // a symbolic link to a served file: its size is the file's
+    {
+        let linked = format!("{tree},l:{}:{}", hex(b"srv/link.txt"), hex(b"a.txt"));
+        for flags in ["-", "s"] {
+            let t = vec![("tsize".to_string(), "0".to_string())];
+            out.push(format!("srv {flags} 0 {linked} q0:{}:D;q1:{}:D;{probe}", hex(&req(1, b"link.txt", &t)), hex(&req(1, b"link.txt", &[]))));
+        }
+    }
+    // an upload whose every write fails (the target is a link to /dev/full, replaced with --overwrite): never acknowledged,
+    // cleaned up like any failed upload
+    {
+        let full = format!("{tree},l:{}:{}", hex(b"srv/full.bin"), hex(b"/dev/full"));
+        for flags in ["o", "os", "ok"] {
+            for (b, w, len) in [("512", "1", 700u64), ("8", "4", 100), ("1024", "2", 5000)] {
+                let o = vec![("blksize".to_string(), b.to_string()), ("windowsize".to_string(), w.to_string())];
+                out.push(format!("srv {flags} 0 {full} q0:{}:UP{len}_3;{probe}", hex(&req(2, b"full.bin", &o))));
+            }
+        }
+    }
+    // single-port mode: a download is left waiting while sixty-seven other requests are served, then taken up again
+    for flags in ["s", "so"] {
+        let hold = hex(&req(1, b"big", &[]));
+        let other = hex(&req(1, b"a.txt", &[]));
+        let mut steps = vec![format!("q0:{hold}:H")];
+        for k in 0..67 {
+            steps.push(format!("q{}:{other}:D", 1 + k % 8));
+        }
+        steps.push("c0".to_string());
+        steps.push(probe.clone());
+        out.push(format!("srv {flags} 0 {tree} {}", steps.join(";")));
+    }
     // single-port mode, an endpoint whose download is still running asks again: the refusals come all the same
     for (flags, w) in [("sr", "new.bin"), ("s", "a.txt"), ("sr", "a.txt"), ("sk", "old.bin")] {
         let hold = hex(&req(1, b"big", &[]));
@@ -862,6 +952,7 @@ pub fn gen_srv_rt(_rng: &mut Rng, _count: u64, tier: &str) -> Vec<String> {
     let o8 = |ws: &str| vec![("blksize".to_string(), "8".to_string()), ("windowsize".to_string(), ws.to_string())];
     out.push(format!("srv - 0 {wrap_tree} q0:{}:D;{probe}", hex(&req(1, b"wrap", &o8("4")))));
     out.push(format!("srv s 0 {wrap_tree} q0:{}:D;{probe}", hex(&req(1, b"wrap0", &o8("64")))));
+    out.push(format!("srv s 0 {wrap_tree} q0:{}:D;{probe}", hex(&req(1, b"wrap", &o8("1")))));
     if tier == "thorough" {
         out.push(format!("srv - 0 {wrap_tree} q0:{}:D;{probe}", hex(&req(1, b"wrap0", &o8("1")))));
         out.push(format!("srv s 0 {wrap_tree} q0:{}:D;{probe}", hex(&req(1, b"wrap", &o8("7")))));
